@@ -1,0 +1,26 @@
+//go:build verif
+
+package analyzer
+
+import (
+	"sync"
+
+	"github.com/quasilyte/go-ruleguard/ruleguard"
+)
+
+// VerifResetGlobals puts the process-wide engine cache back into its initial state,
+// so that a verification harness can run several "processes" worth of passes in one binary.
+func VerifResetGlobals() {
+	globalEngineMu.Lock()
+	defer globalEngineMu.Unlock()
+	globalEngine = nil
+	globalEngineErrored = false
+	runnerStatePool = sync.Pool{}
+}
+
+// VerifGlobals reports the current contents of the engine cache.
+func VerifGlobals() (engine *ruleguard.Engine, errored bool, poolReady bool) {
+	globalEngineMu.Lock()
+	defer globalEngineMu.Unlock()
+	return globalEngine, globalEngineErrored, runnerStatePool.New != nil
+}
